@@ -52,11 +52,14 @@ class NfdRegister(PrefixRegisterer):
                     break
                 await aio.sleep(0.001)
             try:
-                _, reply, _ = await self.app.express(
+                pending = self.app.express(
                     name=nfd_mgmt.make_command_v2('rib', 'register', self.app.face, name=name),
                     app_param=b'', signer=sec.DigestSha256Signer(for_interest=True),
                     validator=pass_all,
                     lifetime=1000)
+                # The Interest is signed with a clock reading taken after the check above
+                self._last_command_timestamp = utils.timestamp()
+                _, reply, _ = await pending
                 try:
                     ret = nfd_mgmt.parse_response(reply)
                 except MALFORMED_RESPONSE:
@@ -86,10 +89,13 @@ class NfdRegister(PrefixRegisterer):
                     break
                 await aio.sleep(0.001)
             try:
-                _, reply, _ = await self.app.express(
+                pending = self.app.express(
                     nfd_mgmt.make_command_v2('rib', 'unregister', self.app.face, name=name),
                     app_param=b'', signer=sec.DigestSha256Signer(for_interest=True),
                     validator=pass_all, lifetime=1000)
+                # The Interest is signed with a clock reading taken after the check above
+                self._last_command_timestamp = utils.timestamp()
+                _, reply, _ = await pending
                 try:
                     ret = nfd_mgmt.parse_response(reply)
                 except MALFORMED_RESPONSE:
